@@ -94,6 +94,16 @@ def c07a(tree, ob):
         ob.violate(SESS, fv.qual, 'except VerifyError: ... ' + bad[0].text()[:50], 'after a partial decode the buffer is consumed or a message is acted on', ph)
     else:
         ob.site(SESS, ph, 'partial => return, buffer untouched, nothing dispatched')
+    # "partial" means: wait for more octets.  The arm does nothing but log and leave -- in particular it does not give up on
+    # the connection because of how much is buffered (a bound that forgets the message header closes on a legal segment
+    # of exactly the MRU when the read ends inside it)
+    from ..core import is_logging_stmt
+    extra = [st for st in ph.body if not is_logging_stmt(st) and not isinstance(st, (ast.Return, ast.Pass)) and not (isinstance(st, ast.Expr) and isinstance(st.value, ast.Constant))]
+    if extra:
+        ob.violate(SESS, fv.qual, 'except VerifyError: ... ' + src(extra[0])[:60], 'a partial message is answered with more than waiting: the connection is closed (or state is changed) while a legal message '
+                   'is still arriving, and the bundle it carries is lost', extra[0])
+    else:
+        ob.site(SESS, ph, 'the partial arm only logs and returns')
     # the probe decodes the buffer itself and the consume precedes the dispatch
     probes = [n for n in walk_local(func) if isinstance(n, ast.Assign) and pm('msgcls(self.__rx_buf)', n.value) is not None]
     if len(probes) != 1:
@@ -202,7 +212,30 @@ def c07b(tree, ob):
                        'the receive callback'.format(cls, own), tree.klass(rel, cls))
 
 
+def _padding_strippers(tree, ob):
+    ''' remove_padding() cuts off what follows a packet.  For the two probe classes that is the rest of the stream (the next
+    messages).  For a packet that sits INSIDE a message -- an extension item in its list -- what follows it are its
+    siblings: stripping there drops every item behind the first, the list no longer fills its declared length, and the
+    message is never complete. '''
+    probes = {(rel, cls) for (rel, cls, node) in _probe_classes(tree)}
+    n = 0
+    for rel in (MSGS, CONTACT, EXTEND, FORMATS):
+        for (r, qual, func) in tree.all_functions([rel]):
+            for c in calls_in(func):
+                if (call_name(c) or '').split('.')[-1] != 'remove_padding' or qual == 'remove_padding':
+                    continue
+                n += 1
+                cls = qual.split('.')[0]
+                if (rel, cls) in probes and qual.endswith('.post_dissection') and [src(a) for a in c.args] == ['self']:
+                    ob.site(rel, c, 'padding stripped by probe class ' + cls)
+                else:
+                    ob.violate(rel, qual, src(c), 'trailing octets are stripped from a packet that is not one of the stream probe classes: inside a message they are the items that follow, '
+                               'which are lost (a START segment with two extension items never becomes complete)', c)
+    ob.require(n >= 1, 'remove_padding call sites: {}'.format(n))
+
+
 def c07g(tree, ob):
+    _padding_strippers(tree, ob)
     ''' recv_raw measures a message by re-encoding the probed packet.  scapy keeps octets that follow the last layer as
     a Padding layer, which is re-encoded too: unless the probe class strips it, the measured length covers the whole
     receive buffer and the octets of the next message are consumed with this one. '''
